@@ -6,14 +6,28 @@ Bounded-exhaustive program family (lib/symtabfam.py): every program has 4 symbol
   type {func, object, tls, notype, absolute} x fate {retained (referenced from _start), gc
   (unreferenced, own section), xl-all / xl-lib (defined in libx.a(m.o), linked with --exclude-libs
   ALL / libx.a, referenced from the member's function xanchor), vs-local (version script `local:`),
-  dyn-list (--dynamic-list), eds (--export-dynamic-symbol)} x {single, dup (a second, weak
-  definition of the same name with another marker and size in dup.o after main.o: it must lose)}
-(skipped by rule: local + non-default visibility; dup for local / gnu-unique / archive symbols).  Programs = rows of a deterministic greedy
-covering array over the 20 factors (4 slots x 5 axes; strength 2 in quick, 3 in thorough;
-construction in symtabfam.covering_array, verified after construction) plus 164 rows in which each of
-the 655 legal per-symbol tuples occurs.  Every program is linked as
+  dyn-list (--dynamic-list), eds (--export-dynamic-symbol)}
+  x a non-winning second definition of the same name: position {none, before (pre.o precedes the
+  winner's object), after (dup.o follows it)} x its visibility {default, protected, hidden,
+  internal}; it is weak (a smaller common when the winner is a common; type `common` is a sixth type
+  value), has another marker and size, and must lose -- but its visibility must be merged into the
+  result (most constraining wins; GNU ld decides).  A gnu-unique definition cannot lose under GNU ld
+  (multiple-definition error against global / gnu-unique, wins against weak), so gnu-unique takes part
+  as the winner.
+(skipped by rule, see symtabfam.legal: local + non-default visibility; second definition for local /
+archive symbols; weak winner after a weak first definition; common that is not STB_GLOBAL.)
+Programs:
+  (a) rows of a deterministic greedy covering array over the 24 factors (4 slots x 6 axes; strength 2
+      in quick, 3 in thorough; construction in symtabfam.covering_array, verified after construction);
+  (b) 121 rows in which each of the 483 legal per-symbol tuples without a second definition occurs;
+  (c) the duplicate-definition sub-family, BOTH tiers, 156 programs x 4 symbols = every legal
+      (winner binding, winner visibility, position, second definition's visibility) x type {func,
+      object, tls, notype, abs, common} with fate retained and x {func, object, common} with fate gc.
+(a) and (b) are linked as
   output {static exe, PIE, PIE --export-dynamic, -shared, -shared -Bsymbolic}
   x strip {none, --strip-debug, --strip-all} x {none, --discard-locals, --discard-all}
+  (quick tier, (b) only: each strip / discard flag alone instead of the 3 x 3 product);
+(c) as the 5 outputs x {no flag, --strip-all} (strip / discard flags do not interact with merging),
 by the real wild (in-process server).  Dynamic outputs import imp_f / imp_o from libimp.so.
 
 Oracle 1 (from the statement, on wild's output alone, via elfread):
@@ -51,11 +65,21 @@ OUTPUTS = {"static": ["-no-pie"], "pie": ["-pie"], "pie-ed": ["-pie", "--export-
 STRIPS = [(), ("--strip-debug",), ("--strip-all",)]
 DISCARDS = [(), ("--discard-locals",), ("--discard-all",)]
 OWN = {"s0", "s1", "s2", "s3", "_start", "xanchor", "imp_f", "imp_o", "imp_unused"}
-HELPERS = {"main.c", "m.c", "dup.c", ".Ltmp0", "loc_keep", "absrefs", ""}
+HELPERS = {"main.c", "m.c", "dup.c", "pre.c", ".Ltmp0", "loc_keep", "absrefs", ""}
 BN = {0: "local", 1: "global", 2: "weak", 10: "unique"}
 TN = {0: "notype", 1: "object", 2: "func", 3: "section", 4: "file", 6: "tls", 10: "ifunc"}
 VN = {0: "default", 1: "internal", 2: "hidden", 3: "protected"}
-EXP_TYPE = {"func": "func", "object": "object", "tls": "tls", "notype": "notype", "abs": "notype"}
+EXP_TYPE = {"func": "func", "object": "object", "tls": "tls", "notype": "notype", "abs": "notype",
+            "common": "object"}
+
+
+def dp_of(x):
+    return f"+dup-{x['dup']}" if x.get("dup") else ""
+
+
+def via(x):
+    """Suffix naming a visibility that comes from the non-winning definition."""
+    return f":from-{x['vis_from']}-definition" if x.get("vis_from", "winner") != "winner" else ""
 
 
 def visclass(v):
@@ -104,19 +128,57 @@ def fateclass(x, flags):
     if x["fate"] == "vs-local":
         return "vs-local"
     return (x["fate"] if x["fate"] in ("dyn-list", "eds", "gc") else "plain") + \
-        ("+dup" if x.get("dup") else "")
+        (f"+dup-{x['dup']}" if x.get("dup") else "")
 
 
 def oracle1(t, exp, flags, out):
-    """Statement-only checks on wild's output. -> [(key, what)], set of names flagged in dynsym."""
+    """Statement-only checks on wild's output. -> [(key, what)], set of names whose .dynsym entry
+    is already flagged, set of names whose entries describe the WRONG definition (everything else
+    about them is then skipped)."""
     v = []
     e = t["elf"]
     tls = [p for p in e.segments if p.p_type == elfread.PT_TLS]
     flagged_dyn = set()
+    wrong = set()
+    flagged_sym = set()
+
+    def is_loser(ent, x):
+        """Does this entry describe the non-winning definition (its marker / absolute value)?"""
+        if not x.get("dup"):
+            return False
+        _i, name, _b, _ty, _vi, cls, value, _sz = ent
+        if x.get("loser_value") is not None:
+            hit = cls == "A" and value == x["loser_value"]
+        elif x.get("loser_marker") is not None and cls == "D":
+            addr = value + (tls[0].p_vaddr if x["type"] == "tls" and tls else 0)
+            try:
+                hit = e.read_vaddr(addr, 8).hex() == x["loser_marker"]
+            except elfread.ElfError:
+                hit = False
+        else:
+            hit = False
+        if hit and name not in wrong:
+            wrong.add(name)
+            flagged_dyn.add(name)
+            v.append((f"wrong-winner:{x['bind']}:second-definition-{x['dup']}",
+                      f"{name} ({x['bind']},{x['own_vis']},{x['type']},{x['fate']}): the table "
+                      f"describes the weak definition placed {x['dup']} the {x['bind']} one "
+                      f"(GNU ld: the {x['bind']} definition wins)"))
+        return hit
 
     def check_value(tabname, ent, x):
         _i, name, _b, _ty, _vi, cls, value, _sz = ent
-        dp = "+dup" if x.get("dup") else ""
+        dp = f"+dup-{x['dup']}" if x.get("dup") else ""
+        if x["type"] == "common":
+            # allocated by the linker: no marker; it must be a section-relative, readable address
+            try:
+                ok = cls == "D" and e.read_vaddr(value, 8) is not None
+            except elfread.ElfError:
+                ok = False
+            if not ok:
+                v.append((f"{tabname}:value:common{dp}", f"{name}: common symbol has class {cls} "
+                          f"value {value:#x} outside the image"))
+            return
         if x["type"] == "abs":
             if cls != "A" or value != x["value"]:
                 v.append((f"{tabname}:value:abs{dp}", f"{name}: absolute symbol has value {value:#x} "
@@ -168,9 +230,11 @@ def oracle1(t, exp, flags, out):
                 continue
             ent = ents[0]
             _i, _n, b, ty, vi, cls, value, size = ent
+            if is_loser(ent, x):
+                continue
             check_value("symtab", ent, x)
             if size != x["size"]:
-                v.append((f"symtab:size:{x['type']}{'+dup' if x.get('dup') else ''}", f"{name}: st_size {size}, input {x['size']}"))
+                v.append((f"symtab:size:{x['type']}{dp_of(x)}", f"{name}: st_size {size}, input {x['size']}"))
             if ty != EXP_TYPE[x["type"]]:
                 v.append((f"symtab:type:{x['type']}->{ty}", f"{name}: type {ty}"))
             may_be_local = x["vis"] in ("hidden", "internal") or demoted(x, flags)
@@ -178,7 +242,9 @@ def oracle1(t, exp, flags, out):
                 v.append((f"symtab:binding:{x['bind']}->{b}:{fateclass(x, flags)}",
                           f"{name} ({x['vis']}, {x['fate']}): binding {b}, input {x['bind']}"))
             if b != "local" and not demoted(x, flags) and vi != x["vis"]:
-                v.append((f"symtab:visibility:{x['vis']}->{vi}:{fateclass(x, flags)}",
+                flagged_sym.add(name)
+                v.append((f"symtab:visibility:{x['vis']}->{vi}:" +
+                          (via(x)[1:] if via(x) else fateclass(x, flags)),
                           f"{name} ({x['bind']}, {x['fate']}): visibility {vi}, input {x['vis']}"))
     # ---- .dynsym
     dyn = t["dynsym"]
@@ -190,7 +256,7 @@ def oracle1(t, exp, flags, out):
     for ent in dyn:
         _i, name, b, ty, vi, cls, value, size = ent
         x = exp.get(name)
-        if x is None or cls == "U":
+        if x is None or cls == "U" or is_loser(ent, x) or name in wrong:
             continue
         why = None
         if x["bind"] == "local":
@@ -203,7 +269,8 @@ def oracle1(t, exp, flags, out):
             why = "vs-local"
         if why:
             flagged_dyn.add(name)
-            v.append((f"dynsym:{why}-exported:{out}",
+            v.append((f"dynsym:{why}-exported:" + (via(x)[1:] if why == x['vis'] and via(x)
+                                                    else out),
                       f"{name} ({x['bind']},{x['vis']},{x['type']},{x['fate']}) is exported in "
                       f".dynsym as ({b},{vi})"))
         else:
@@ -214,7 +281,7 @@ def oracle1(t, exp, flags, out):
                 flagged_dyn.add(imp)
                 v.append((f"dynsym:import-missing:{imp}:{out}", f"undefined reference {imp} to "
                           f"libimp.so is not in .dynsym"))
-    return v, flagged_dyn
+    return v, flagged_dyn, wrong | flagged_sym
 
 
 def ld_sets(t):
@@ -232,7 +299,7 @@ def ld_sets(t):
     return dyn, sym
 
 
-def oracle2(t, ldref, exp, flags, out, flagged_dyn):
+def oracle2(t, ldref, exp, flags, out, flagged_dyn, wrong=()):
     v = []
     wdyn, wsym = ld_sets(t)
     ldyn, lsym = ldref
@@ -244,12 +311,20 @@ def oracle2(t, ldref, exp, flags, out, flagged_dyn):
 
         def st(d):
             return "absent" if d is None else ".".join(d)
-        v.append((f"dynsym-vs-ld:{out}:{cls}:ld={st(ldyn.get(name))},wild={st(wdyn.get(name))}",
-                  f"{name}: GNU ld .dynsym {ldyn.get(name)}, wild {wdyn.get(name)}"))
+        l_, w_ = ldyn.get(name), wdyn.get(name)
+        if x and via(x) and l_ and w_ and (l_[0], l_[2]) == (w_[0], w_[2]):
+            key = f"dynsym-vs-ld:visibility-merge{via(x)}:ld={l_[1]},wild={w_[1]}"
+        elif x and via(x):
+            key = f"dynsym-vs-ld:visibility-merge{via(x)}:ld={st(l_)},wild={st(w_)}"
+        else:
+            key = f"dynsym-vs-ld:{out}:{cls}:ld={st(l_)},wild={st(w_)}"
+        v.append((key, f"{name} ({x['bind']},{x['own_vis']},{x['type']},{x['fate']},second "
+                  f"definition {x['dup']}): GNU ld .dynsym {l_}, wild {w_}" if x else
+                  f"{name}: GNU ld .dynsym {l_}, wild {w_}"))
     if t["symtab"] is not None:
         for name in sorted(set(wsym) & set(lsym)):
             x = exp.get(name)
-            if x is None or len(wsym[name]) != 1 or len(lsym[name]) != 1:
+            if x is None or name in wrong or len(wsym[name]) != 1 or len(lsym[name]) != 1:
                 continue
             if out == "static" and demoted(x, flags):
                 continue     # GNU ld does not localise in an output without dynamic sections
@@ -262,7 +337,12 @@ def oracle2(t, ldref, exp, flags, out, flagged_dyn):
                     b = "nonlocal"
                 elif wn == "local":
                     a = "nonlocal"
-                v.append((f"symtab-vs-ld:{fateclass(x, flags)}:ld={a},wild={b}",
+                if via(x):
+                    key = (f"symtab-vs-ld:visibility-merge{via(x)}:ld={a.split('.')[-1]},"
+                           f"wild={b.split('.')[-1]}")
+                else:
+                    key = f"symtab-vs-ld:{fateclass(x, flags)}:ld={a},wild={b}"
+                v.append((key,
                           f"{name} ({x['bind']},{x['vis']},{x['type']},{x['fate']}) output {out}: "
                           f"GNU ld .symtab entry is {ln}, wild's is {wn}"))
     return v
@@ -272,27 +352,29 @@ def oracle2(t, ldref, exp, flags, out, flagged_dyn):
 def materialise(d, row):
     os.makedirs(d, exist_ok=True)
     exps = {}
-    mem = dup = None
+    mem = pre = dup = None
     for imports, fn in ((False, "main_s.o"), (True, "main_d.o")):
-        m, mem, dup, exp = F.build_program(row, imports)
+        m, mem, pre, dup, exp = F.build_program(row, imports)
         with open(os.path.join(d, fn), "wb") as f:
             f.write(m)
         exps[imports] = exp
     if mem is not None:
         symfam.write_archive(os.path.join(d, "libx.a"), [("m.o", mem)])
-    if dup is not None:
-        with open(os.path.join(d, "dup.o"), "wb") as f:
-            f.write(dup)
+    for fn, blob in (("pre.o", pre), ("dup.o", dup)):
+        if blob is not None:
+            with open(os.path.join(d, fn), "wb") as f:
+                f.write(blob)
     argv, files = F.option_files(row)
     for n, text in files.items():
         with open(os.path.join(d, n), "w") as f:
             f.write(text)
-    return exps, argv, (mem is not None, dup is not None)
+    return exps, argv, (mem is not None, pre is not None, dup is not None)
 
 
 def inputs_for(out, has, libimp):
-    has_archive, has_dup = has
-    inp = ["main_s.o"] if out == "static" else ["main_d.o"]
+    has_archive, has_pre, has_dup = has
+    inp = ["pre.o"] if has_pre else []
+    inp.append("main_s.o" if out == "static" else "main_d.o")
     if has_dup:
         inp.append("dup.o")
     if has_archive:
@@ -303,7 +385,13 @@ def inputs_for(out, has, libimp):
 
 
 def run_program(item):
-    base, idx, row, ld_all_configs, only = item
+    base, idx, row, ld_all_configs, only, reduced = item
+    if reduced == "pair":
+        configs = [((), ()), (("--strip-all",), ())]
+    elif reduced == "star":      # every strip / discard flag alone
+        configs = [(st, ()) for st in STRIPS] + [((), di) for di in DISCARDS[1:]]
+    else:
+        configs = [(st, di) for st in STRIPS for di in DISCARDS]
     d = os.path.join(base, f"w{os.getpid()}", f"p{idx}")
     exps, optargv, has_archive = materialise(d, row)
     flags = {"exclude": any(a.startswith("--exclude-libs") for a in optargv)}
@@ -347,8 +435,8 @@ def run_program(item):
                         res["ld_config_dependence"].append((out, st, di))
         res["sigs"].add((out, tuple(sorted(ldref[0].items())),
                          tuple(sorted((k, tuple(v)) for k, v in ldref[1].items()))))
-        for st in STRIPS:
-            for di in DISCARDS:
+        for st, di in configs:
+            if True:
                 if only and (tuple(only.get("strip", st)) != st or
                              tuple(only.get("discard", di)) != di):
                     continue
@@ -365,8 +453,8 @@ def run_program(item):
                     continue
                 try:
                     t = read_tables(os.path.join(d, outname))
-                    v1, flagged = oracle1(t, exp, flags, out)
-                    v2 = oracle2(t, ldref, exp, flags, out, flagged)
+                    v1, flagged, wrong = oracle1(t, exp, flags, out)
+                    v2 = oracle2(t, ldref, exp, flags, out, flagged, wrong)
                 except elfread.ElfError as ex:
                     res["viol"].append(("unreadable-output", str(ex), cfg))
                     continue
@@ -431,12 +519,10 @@ def synthesised_names(base):
 def family(thorough):
     rows = F.covering_array(3 if thorough else 2)
     n_ca = len(rows)
-    seen = set(rows)
-    for r in F.tuple_cover_rows():
-        if r not in seen:
-            rows.append(r)
-            seen.add(r)
-    return rows, n_ca
+    rows += F.tuple_cover_rows()
+    n_base = len(rows)
+    rows += F.dup_subfamily_rows()          # linked with the reduced configuration set
+    return rows, n_ca, n_base
 
 
 def replay(chk):
@@ -448,7 +534,7 @@ def replay(chk):
     os.makedirs(base, exist_ok=True)
     prepare_libimp(base)
     only = {"output": rp["config"][0], "strip": rp["config"][1], "discard": rp["config"][2]}
-    r = run_program((base, 0, row, False, only))
+    r = run_program((base, 0, row, False, only, False))
     d = os.path.join(base, f"w{os.getpid()}", "p0")
     print("row:", row)
     print("directory:", d)
@@ -473,7 +559,8 @@ def prepare_libimp(base):
 def command_of(row, cfg):
     out, st, di = cfg
     optargv, _f = F.option_files(row)
-    has = (any(s[3] in F.ARCHIVE_FATES for s in row), any(s[4] == "dup" for s in row))
+    has = (any(s[3] in F.ARCHIVE_FATES for s in row), any(s[4] == "before" for s in row),
+           any(s[4] == "after" for s in row))
     return " ".join(["wild", "--gc-sections", *OUTPUTS[out], *optargv, *st, *di,
                      *inputs_for(out, has, "../../libimp.so"), "-o", "wild.out"])
 
@@ -485,18 +572,23 @@ def main():
     if chk.args.replay:
         replay(chk)
     strength = 3 if chk.thorough else 2
-    rows, n_ca = family(chk.thorough)
+    rows, n_ca, n_base = family(chk.thorough)
     missing = F.uncovered(rows[:n_ca], strength)
     if missing:
         chk.machinery(f"covering array construction left {missing} combinations uncovered")
     tuples_seen = {s for r in rows for s in r}
-    if len(tuples_seen) != len(F.all_symbol_tuples()):
+    want = {t for t in F.LEGAL if t[4] == "none"} | {s for r in F.dup_subfamily_rows() for s in r}
+    if not want <= tuples_seen:
         chk.machinery("per-symbol tuple cover incomplete")
+    dup_combos = {(s[0], s[1], s[2] == "common", s[4], s[5]) for r in rows[n_base:] for s in r}
+    dup_legal = {(t[0], t[1], t[2] == "common", t[4], t[5]) for t in F.LEGAL if t[4] != "none"}
+    if dup_combos != dup_legal:
+        chk.machinery("duplicate-definition sub-family is not exhaustive")
     order = list(range(len(rows)))
     if chk.seed:
         import random
         random.Random(chk.seed).shuffle(order)
-    n_ldcfg = 40 if chk.thorough else 12      # sub-family for the GNU ld flag-independence check
+    n_ldcfg = 40 if chk.thorough else 6      # sub-family for the GNU ld flag-independence check
     nsub = 0
     tot = dict(wild_links=0, evals=0, ld_rejected=0, wild_failed=0)
     sigs = set()
@@ -510,7 +602,12 @@ def main():
         except RuntimeError as ex:
             chk.machinery(str(ex))
         nsub += 1 + n
-        items = [(base, i, rows[i], k < n_ldcfg, None) for k, i in enumerate(order)]
+        def cfgset(i):
+            if i >= n_base:
+                return "pair"
+            return "star" if (i >= n_ca and not chk.thorough) else False
+        items = [(base, i, rows[i], k < n_ldcfg and i < n_base, None, cfgset(i))
+                 for k, i in enumerate(order)]
         results = wildrun.pmap(run_program, items, chunksize=1)
         for r in results:
             row = rows[r["idx"]]
@@ -550,9 +647,14 @@ def main():
         "distinct_nontrivial_meaning": "distinct (output kind, GNU ld .dynsym set, GNU ld .symtab "
                                        "class set) reference outcomes",
         "programs": len(rows), "covering_array_rows": n_ca, "covering_strength": strength,
+        "tuple_cover_rows": n_base - n_ca, "duplicate_definition_subfamily_programs":
+            len(rows) - n_base,
+        "duplicate_definition_combinations_exhausted": len(dup_combos),
         "covering_array_uncovered_combinations": missing,
         "per_symbol_tuples_covered": len(tuples_seen),
         "configurations_per_program": len(OUTPUTS) * len(STRIPS) * len(DISCARDS),
+        "configurations_per_subfamily_program": len(OUTPUTS) * 2,
+        "configurations_per_tuple_cover_program": len(OUTPUTS) * (9 if chk.thorough else 5),
         "wild_links": tot["wild_links"], "subprocesses": nsub,
         "program_outputs_dropped_gnu_ld_rejects": tot["ld_rejected"],
         "gnu_ld_reject_reasons": ld_reject_reasons,
@@ -564,7 +666,7 @@ def main():
         "rule": __doc__.split("Bounded-exhaustive program family", 1)[1].strip()[:1800],
         "samples": [{"row": rows[i]} for i in sorted({0, len(rows) // 2, len(rows) - 1})],
         "exhaustive": True,
-        "thinned": "4 symbols per program as a covering array (not the full 655^4 product); GNU ld "
+        "thinned": "4 symbols per program as a covering array (not the full 2643^4 product); GNU ld "
                    "reference linked once per (program, output kind)",
     }
     chk.assumptions = [
